@@ -176,6 +176,19 @@ impl<'a> Cs<'a> {
         }
         s
     }
+    /// A count that crosses a power of two an implementation may use as a table or counter size:
+    /// mostly just around 2^16 and 2^17, one time in eight around 2^18, one in twenty-four around 2^20.
+    pub fn big_count(&mut self) -> usize {
+        match self.below(24) {
+            0 => 1_048_570 + self.below(12),
+            1 | 2 | 3 => 262_138 + self.below(12),
+            4..=8 => 65_530 + self.below(16),
+            9..=11 => 65_535 + self.below(4),
+            12..=15 => 131_066 + self.below(12),
+            16..=19 => 65_537 + self.below(5_000),
+            _ => 66_000 + self.below(69_000),
+        }
+    }
     /// ASCII string with exactly `n` bytes.
     pub fn ascii_exact(&mut self, n: usize) -> String {
         (0..n)
